@@ -4,11 +4,22 @@ package main
 // shrinks failing inputs, attaches narrow class tags, and records statistics.
 
 import (
+	"bytes"
+	"encoding/json"
 	"fmt"
+	"os"
+	"os/exec"
+	"path/filepath"
 	"regexp"
+	"runtime/debug"
 	"sort"
 	"strings"
 	"sync"
+	"sync/atomic"
+	"time"
+
+	"cuelang.org/go/cue/ast"
+	"cuelang.org/go/cue/token"
 )
 
 type c20Case struct {
@@ -19,30 +30,326 @@ type c20Case struct {
 	shrunk map[string]c20Pkg // per failing class
 }
 
-func c20RunCases(c *Cfg, cases []*c20Case, perDecl bool) {
-	var wg sync.WaitGroup
-	sem := make(chan struct{}, 12)
-	for _, cs := range cases {
-		wg.Add(1)
-		sem <- struct{}{}
-		go func(cs *c20Case) {
-			defer wg.Done()
-			defer func() { <-sem }()
-			cs.res = c20CheckPkgOpts(cs.pkg, c20Opts{perDecl: perDecl})
-			if len(cs.res.fails) > 0 {
-				cs.shrunk = map[string]c20Pkg{}
-				for _, f := range cs.res.fails {
-					if _, ok := cs.shrunk[f.class]; !ok {
-						cs.shrunk[f.class] = c20Shrink(cs.pkg, f.class, 60)
-					}
+// Cases are evaluated in re-exec'ed worker processes: trim.Files can recurse without bound
+// (a fatal, unrecoverable stack overflow in Go), so the harness must survive the death of
+// whatever runs it.  Worker protocol: the parent writes a JSON array of c20Job to a file,
+// the worker (`-replay worker:<in>:<out>`) appends one JSON line per job to <out>:
+// {"i":k,"start":true} before and {"i":k,"res":…} after.
+type c20Job struct {
+	I       int    `json:"i"`
+	Pkg     c20Pkg `json:"pkg"`
+	PerDecl bool   `json:"perDecl"`
+	Shrink  bool   `json:"shrink"`
+}
+
+type c20WireFail struct {
+	Class string `json:"class"`
+	What  string `json:"what"`
+}
+
+type c20Wire struct {
+	I        int               `json:"i"`
+	Start    bool              `json:"start,omitempty"`
+	Skipped  string            `json:"skipped,omitempty"`
+	Removed  []string          `json:"removed,omitempty"`
+	Replaced []string          `json:"replaced,omitempty"`
+	Trimmed  c20Pkg            `json:"trimmed"`
+	NInc     int               `json:"nInc"`
+	NErr     int               `json:"nErr"`
+	Valid    bool              `json:"valid"`
+	Changed  bool              `json:"changed"`
+	Fails    []c20WireFail     `json:"fails,omitempty"`
+	Shrunk   map[string]c20Pkg `json:"shrunk,omitempty"`
+}
+
+func c20Worker(spec string) {
+	parts := strings.SplitN(spec, ":", 2)
+	if len(parts) != 2 {
+		os.Exit(2)
+	}
+	debug.SetMaxStack(40 << 20)
+	b, err := os.ReadFile(parts[0])
+	if err != nil {
+		os.Exit(2)
+	}
+	var jobs []c20Job
+	if json.Unmarshal(b, &jobs) != nil {
+		os.Exit(2)
+	}
+	f, err := os.OpenFile(parts[1], os.O_CREATE|os.O_WRONLY|os.O_APPEND, 0o666)
+	if err != nil {
+		os.Exit(2)
+	}
+	defer f.Close()
+	emit := func(w c20Wire) {
+		b, _ := json.Marshal(w)
+		f.Write(append(b, '\n'))
+	}
+	c20Beat = func() { f.Write([]byte("\n")) }
+	for _, j := range jobs {
+		emit(c20Wire{I: j.I, Start: true})
+		r := c20CheckPkgOpts(j.Pkg, c20Opts{perDecl: j.PerDecl})
+		w := c20Wire{I: j.I, Skipped: r.skipped, Removed: r.removed, Replaced: r.replaced, Trimmed: r.trimmed,
+			NInc: r.before.nInc, NErr: r.before.nErr, Valid: r.before.valid, Changed: r.changed}
+		for _, fl := range r.fails {
+			w.Fails = append(w.Fails, c20WireFail{fl.class, fl.what})
+		}
+		if j.Shrink && len(r.fails) > 0 {
+			w.Shrunk = map[string]c20Pkg{}
+			for _, fl := range r.fails {
+				if _, ok := w.Shrunk[fl.class]; !ok {
+					w.Shrunk[fl.class] = c20Shrink(j.Pkg, fl.class, 60)
 				}
 			}
-		}(cs)
+		}
+		emit(w)
+	}
+}
+
+var c20ScratchCounter atomic.Int64
+
+// c20Beat is called between the (many) trim runs of shrinking / per-declaration variants so
+// that the parent's stall detector only fires when ONE pipeline run does not come back.
+var c20Beat = func() {}
+
+// c20RunWorker runs jobs in one child; returns the results received and, when the child
+// died or stalled, the index (into jobs) of the job it was working on and why.
+func c20RunWorker(c *Cfg, jobs []c20Job, perCase time.Duration) (res map[int]c20Wire, culprit int, why string) {
+	res = map[int]c20Wire{}
+	culprit = -1
+	id := c20ScratchCounter.Add(1)
+	in := filepath.Join(c.Out, fmt.Sprintf("c20-w%d.in.json", id))
+	out := filepath.Join(c.Out, fmt.Sprintf("c20-w%d.out.jsonl", id))
+	defer os.Remove(in)
+	defer os.Remove(out)
+	b, _ := json.Marshal(jobs)
+	if os.WriteFile(in, b, 0o666) != nil {
+		return res, 0, "harness-io"
+	}
+	exe, _ := os.Executable()
+	cmd := exec.Command(exe, "C20", "-out", filepath.Join(c.Out, fmt.Sprintf("c20-w%d.dir", id)), "-replay", "worker:"+in+":"+out)
+	defer os.RemoveAll(filepath.Join(c.Out, fmt.Sprintf("c20-w%d.dir", id)))
+	var stderr bytes.Buffer
+	cmd.Stderr = &c20tail{max: 4000, buf: &stderr}
+	cmd.Stdout = nil
+	if err := cmd.Start(); err != nil {
+		return res, 0, "harness-io"
+	}
+	done := make(chan error, 1)
+	go func() { done <- cmd.Wait() }()
+	read := func() (started int, lastSize int64) {
+		started = -1
+		b, _ := os.ReadFile(out)
+		for _, line := range bytes.Split(b, []byte("\n")) {
+			if len(line) == 0 {
+				continue
+			}
+			var w c20Wire
+			if json.Unmarshal(line, &w) != nil {
+				continue
+			}
+			if w.Start {
+				started = w.I
+			} else {
+				res[w.I] = w
+				if started == w.I {
+					started = -1
+				}
+			}
+		}
+		return started, int64(len(b))
+	}
+	lastSize := int64(-1)
+	lastChange := time.Now()
+	tick := time.NewTicker(500 * time.Millisecond)
+	defer tick.Stop()
+	for {
+		select {
+		case err := <-done:
+			started, _ := read()
+			if err == nil && started < 0 {
+				return res, -1, ""
+			}
+			if started < 0 {
+				// died between jobs: blame the first unanswered job
+				for k, j := range jobs {
+					if _, ok := res[j.I]; !ok {
+						return res, k, "worker-died: " + c20lastLines(stderr.String())
+					}
+				}
+				return res, -1, ""
+			}
+			for k, j := range jobs {
+				if j.I == started {
+					msg := stderr.String()
+					kind := "crash"
+					if strings.Contains(msg, "stack exceeds") || strings.Contains(msg, "stack overflow") {
+						kind = "stack-overflow"
+					}
+					return res, k, kind + ": " + c20lastLines(msg)
+				}
+			}
+			return res, -1, ""
+		case <-tick.C:
+			if st, err := os.Stat(out); err == nil && st.Size() != lastSize {
+				lastSize = st.Size()
+				lastChange = time.Now()
+			} else if time.Since(lastChange) > perCase {
+				cmd.Process.Kill()
+				<-done
+				started, _ := read()
+				for k, j := range jobs {
+					if j.I == started {
+						return res, k, "timeout"
+					}
+				}
+				return res, 0, "timeout"
+			}
+		}
+	}
+}
+
+type c20tail struct {
+	max int
+	buf *bytes.Buffer
+}
+
+func (t *c20tail) Write(p []byte) (int, error) {
+	// keep the head (the fatal error line is printed first)
+	if t.buf.Len() < t.max {
+		n := t.max - t.buf.Len()
+		if n > len(p) {
+			n = len(p)
+		}
+		t.buf.Write(p[:n])
+	}
+	return len(p), nil
+}
+
+func c20lastLines(s string) string {
+	ls := strings.Split(strings.TrimSpace(s), "\n")
+	if len(ls) > 3 {
+		ls = ls[:3]
+	}
+	return strings.Join(ls, " | ")
+}
+
+func c20PerCaseTimeout() time.Duration {
+	// generous: the machine may be heavily loaded
+	return 120 * time.Second
+}
+
+// c20Crashes: does the package still kill/stall a worker?
+func c20Crashes(c *Cfg, p c20Pkg) bool {
+	_, culprit, _ := c20RunWorker(c, []c20Job{{I: 0, Pkg: p}}, c20PerCaseTimeout())
+	return culprit >= 0
+}
+
+func c20ShrinkCrash(c *Cfg, p c20Pkg, maxRuns int) c20Pkg {
+	cur := p
+	runs := 0
+	for progress := true; progress && runs < maxRuns; {
+		progress = false
+		fs, err := c20parse(cur)
+		if err != nil {
+			return cur
+		}
+		keys, _ := c20keysOf("", fs)
+		ks := make([]string, 0, len(keys))
+		for k := range keys {
+			ks = append(ks, k)
+		}
+		sort.Strings(ks)
+		for _, k := range ks {
+			if runs >= maxRuns {
+				break
+			}
+			v, err := c20Variant(cur, map[string]bool{k: true}, nil)
+			if err != nil || v.equal(cur) {
+				continue
+			}
+			runs++
+			if c20Crashes(c, v) {
+				cur = v
+				progress = true
+				break
+			}
+		}
+	}
+	return cur
+}
+
+func c20RunCases(c *Cfg, cases []*c20Case, perDecl bool) {
+	nw := 12
+	if len(cases) < nw*4 {
+		nw = 1 + len(cases)/4
+	}
+	chunks := make([][]c20Job, nw)
+	for i, cs := range cases {
+		chunks[i%nw] = append(chunks[i%nw], c20Job{I: i, Pkg: cs.pkg, PerDecl: perDecl, Shrink: true})
+	}
+	var mu sync.Mutex
+	var wg sync.WaitGroup
+	for _, chunk := range chunks {
+		wg.Add(1)
+		go func(jobs []c20Job) {
+			defer wg.Done()
+			for len(jobs) > 0 {
+				res, culprit, why := c20RunWorker(c, jobs, c20PerCaseTimeout())
+				mu.Lock()
+				for i, w := range res {
+					cases[i].res = c20FromWire(w)
+					cases[i].shrunk = w.Shrunk
+				}
+				mu.Unlock()
+				if culprit < 0 {
+					return
+				}
+				j := jobs[culprit]
+				class := "trim-crash"
+				switch {
+				case strings.HasPrefix(why, "timeout"):
+					class = "trim-hang"
+				case strings.HasPrefix(why, "stack-overflow"):
+					class = "trim-stack-overflow"
+				}
+				r := &c20Result{}
+				r.fail(class, "the process running load + trim.Files + re-evaluation on this package did not survive: %s", why)
+				sh := j.Pkg
+				if !c20HasEmbeddedDisjunction(j.Pkg) {
+					// (the known recursion needs no minimisation; anything else does)
+					sh = c20ShrinkCrash(c, j.Pkg, 20)
+				}
+				mu.Lock()
+				cases[j.I].res = r
+				cases[j.I].shrunk = map[string]c20Pkg{class: sh}
+				mu.Unlock()
+				var rest []c20Job
+				for _, q := range jobs {
+					if _, ok := res[q.I]; !ok && q.I != j.I {
+						rest = append(rest, q)
+					}
+				}
+				jobs = rest
+			}
+		}(chunk)
 	}
 	wg.Wait()
 	for _, cs := range cases {
+		if cs.res == nil {
+			cs.res = &c20Result{skipped: "not-run"}
+		}
 		c20Report(c, cs)
 	}
+}
+
+func c20FromWire(w c20Wire) *c20Result {
+	r := &c20Result{skipped: w.Skipped, removed: w.Removed, replaced: w.Replaced, trimmed: w.Trimmed, changed: w.Changed}
+	r.before.nInc, r.before.nErr, r.before.valid = w.NInc, w.NErr, w.Valid
+	for _, f := range w.Fails {
+		r.fails = append(r.fails, c20Fail{f.Class, f.What})
+	}
+	return r
 }
 
 var c20predicates = []string{"trimmed-loads", "eval-unchanged", "idempotent", "removals-implied"}
@@ -77,7 +384,7 @@ func c20Report(c *Cfg, cs *c20Case) {
 	}
 	// the four predicates of the property, each evaluated on this package
 	groups := map[string][]string{
-		"trimmed-loads":    {"trim-panic", "trim-error", "trimmed-unformattable", "trimmed-unloadable", "eval-panic"},
+		"trimmed-loads":    {"trim-panic", "trim-error", "trimmed-unformattable", "trimmed-unloadable", "eval-panic", "trim-crash", "trim-hang", "trim-stack-overflow"},
 		"eval-unchanged":   {"eval-changed"},
 		"idempotent":       {"not-idempotent", "retrim-error"},
 		"removals-implied": {"removed-alone-changes", "removed-alone-unloadable", "readded-alone-changes"},
@@ -125,6 +432,11 @@ func c20bucket(n int) string {
 // c20Tag derives a narrow syntactic class from the MINIMISED failing package: which
 // constructs are still present once nothing more can be deleted.
 func c20Tag(class string, p c20Pkg) string {
+	if strings.HasPrefix(class, "trim-stack-overflow") || strings.HasPrefix(class, "trim-hang") || strings.HasPrefix(class, "trim-crash") {
+		if c20HasEmbeddedDisjunction(p) {
+			return "/embedded-disjunction"
+		}
+	}
 	src := strings.Join(p.Srcs, "\n")
 	var fs []string
 	add := func(cond bool, name string) {
@@ -206,4 +518,32 @@ func c20Seeds(c *Cfg, r *Rng) {
 		}
 	}
 	c20RunCases(c, cases, !c.Focus)
+}
+
+// c20HasEmbeddedDisjunction: some struct literal embeds a disjunction (`{ {a} | {b} }`).
+func c20HasEmbeddedDisjunction(p c20Pkg) bool {
+	fs, err := c20parse(p)
+	if err != nil {
+		return false
+	}
+	found := false
+	for _, f := range fs {
+		ast.Walk(f, func(n ast.Node) bool {
+			if e, ok := n.(*ast.EmbedDecl); ok {
+				x := e.Expr
+				for {
+					if pe, ok := x.(*ast.ParenExpr); ok {
+						x = pe.X
+						continue
+					}
+					break
+				}
+				if b, ok := x.(*ast.BinaryExpr); ok && b.Op == token.OR {
+					found = true
+				}
+			}
+			return !found
+		}, nil)
+	}
+	return found
 }
